@@ -1067,6 +1067,76 @@ fn exec(out: &mut Out, se: &mut Sess, cfg: &Cfg, line: &str) -> (String, String,
 }
 
 // ---------------------------------------------------------------------------------------------
+// shrinking of failing explicit histories (deterministic ops only)
+// ---------------------------------------------------------------------------------------------
+fn sigs_of(ops: &[String], cfg: &Cfg, scratch: &std::path::Path) -> Vec<String> {
+    let _ = std::fs::create_dir_all(scratch);
+    let mut o = Out::new(scratch);
+    let mut se = Sess::new();
+    for l in ops {
+        let _ = exec(&mut o, &mut se, cfg, l);
+    }
+    o.finish();
+    let text = std::fs::read_to_string(scratch.join("oracle.txt")).unwrap_or_default();
+    text.lines().filter_map(|l| serde_json::from_str::<serde_json::Value>(l).ok()).filter_map(|v| v.get("sig").and_then(|s| s.as_str()).map(|s| s.to_string())).collect()
+}
+
+/// Greedy one-at-a-time removal (from the end), repeated until no single removal keeps the failure.
+fn shrink_history(ops: &[String], sig: &str, cfg: &Cfg, scratch: &std::path::Path) -> Vec<String> {
+    let mut cur: Vec<String> = ops.to_vec();
+    if cur.len() > 2000 || !sigs_of(&cur, cfg, scratch).iter().any(|s| s == sig) {
+        return cur;
+    }
+    let t0 = Instant::now();
+    loop {
+        let mut changed = false;
+        let mut i = cur.len();
+        while i > 0 {
+            i -= 1;
+            if cur[i].starts_with("reset ") {
+                continue;
+            }
+            let mut cand = cur.clone();
+            cand.remove(i);
+            if sigs_of(&cand, cfg, scratch).iter().any(|s| s == sig) {
+                cur = cand;
+                changed = true;
+            }
+            if t0.elapsed() > Duration::from_secs(20) {
+                return cur;
+            }
+        }
+        if !changed {
+            return cur;
+        }
+    }
+}
+
+/// Rewrite oracle.txt with shrunk histories (entries whose ops are explicit deterministic lines).
+fn shrink_oracle_file(dir: &std::path::Path, cfg: &Cfg) {
+    let path = dir.join("oracle.txt");
+    let text = std::fs::read_to_string(&path).unwrap_or_default();
+    if text.trim().is_empty() {
+        return;
+    }
+    let mut done: HashSet<String> = HashSet::new();
+    let mut outl = Vec::new();
+    for l in text.lines() {
+        let Ok(mut v) = serde_json::from_str::<serde_json::Value>(l) else { outl.push(l.to_string()); continue };
+        let sig = v.get("sig").and_then(|s| s.as_str()).unwrap_or("").to_string();
+        let ops: Vec<String> = v.get("ops").and_then(|o| o.as_array()).map(|a| a.iter().filter_map(|x| x.as_str().map(|s| s.to_string())).collect()).unwrap_or_default();
+        let explicit = ops.first().map(|o| o.starts_with("reset ")).unwrap_or(false) && !sig.contains("stuck");
+        if explicit && done.insert(sig.clone()) && done.len() <= 6 {
+            let small = shrink_history(&ops, &sig, cfg, &dir.join("shrink"));
+            v["ops"] = serde_json::json!(small);
+        }
+        outl.push(v.to_string());
+    }
+    let _ = std::fs::write(&path, outl.join("\n") + "\n");
+    let _ = std::fs::remove_dir_all(dir.join("shrink"));
+}
+
+// ---------------------------------------------------------------------------------------------
 // generators
 // ---------------------------------------------------------------------------------------------
 fn gen_json(rng: &mut Rng, depth: u32) -> serde_json::Value {
@@ -1324,7 +1394,7 @@ fn main() {
             ops.push(format!("enum {} {} 0 {}", n, cover_depth, p));
         }
         // (3) random long histories
-        let (hist, maxlen) = if thorough { (3000, 400) } else { (250, 200) };
+        let (hist, maxlen) = if thorough { (2000, 400) } else { (250, 200) };
         for _ in 0..hist {
             let len = rng.range(10, maxlen) as usize;
             gen_history(&mut rng, &mut n, len, &mut ops);
@@ -1344,7 +1414,7 @@ fn main() {
                 ops.push(format!("conc {} {}", n, t));
             }
         }
-        for _ in 0..(if thorough { 1500 } else { 120 }) {
+        for _ in 0..(if thorough { 800 } else { 120 }) {
             n += 1;
             ops.push(gen_conc(&mut rng, n));
         }
@@ -1360,5 +1430,10 @@ fn main() {
             std::process::exit(0);
         }
     }
+    let failed = out.oracle_failures > 0;
+    let dir = out.dir.clone();
     out.finish();
+    if failed {
+        shrink_oracle_file(&dir, &cfg);
+    }
 }
